@@ -363,6 +363,14 @@ pub fn history(index: u64, mut rng: Rng, tier: Tier) -> Outcome {
     // make the first wallet its own signer sometimes (re-entrant shapes), via a real proposal
     let nops = tier.pick(60, 90);
     let mut value_ctr: u64 = 10_000;
+    // address form: the ID address or (for accounts) the key address that resolves to it
+    let key_form: BTreeMap<Address, Address> = accts.iter().map(|a| (*a, key_of(&v, a))).collect();
+    let form = |rng: &mut Rng, a: Address| -> Address {
+        match key_form.get(&a) {
+            Some(k) if rng.chance(1, 3) => *k,
+            _ => a,
+        }
+    };
     let mut successes = 0u64;
     for step in 0..nops {
         let wa = *rng.pick(&wallets);
@@ -387,11 +395,11 @@ pub fn history(index: u64, mut rng: Rng, tier: Tier) -> Outcome {
                 let (to, value, method, params) = match sel {
                     0 => {
                         let big = rng.chance(15, 100);
-                        (*rng.pick(&accts), if big { v.balance(&wa) - atto(rng.below(1000)) } else { atto(value_ctr) }, METHOD_SEND, RawBytes::default())
+                        ({ let a = *rng.pick(&accts); form(&mut rng, a) }, if big { v.balance(&wa) - atto(rng.below(1000)) } else { atto(value_ctr) }, METHOD_SEND, RawBytes::default())
                     }
-                    1 => mk(Method::AddSigner, RawBytes::serialize(AddSignerParams { signer: if rng.chance(1, 4) { wa } else { *rng.pick(&accts) }, increase: rng.chance(1, 2) }).unwrap()),
-                    2 => mk(Method::RemoveSigner, RawBytes::serialize(RemoveSignerParams { signer: if wm.signers.is_empty() { accts[0] } else { *rng.pick(&wm.signers) }, decrease: rng.chance(1, 2) }).unwrap()),
-                    3 => mk(Method::SwapSigner, RawBytes::serialize(SwapSignerParams { from: if wm.signers.is_empty() { accts[0] } else { *rng.pick(&wm.signers) }, to: *rng.pick(&accts) }).unwrap()),
+                    1 => mk(Method::AddSigner, RawBytes::serialize(AddSignerParams { signer: if rng.chance(1, 4) { wa } else { let a = *rng.pick(&accts); form(&mut rng, a) }, increase: rng.chance(1, 2) }).unwrap()),
+                    2 => mk(Method::RemoveSigner, RawBytes::serialize(RemoveSignerParams { signer: if wm.signers.is_empty() { accts[0] } else { let a = *rng.pick(&wm.signers); form(&mut rng, a) }, decrease: rng.chance(1, 2) }).unwrap()),
+                    3 => mk(Method::SwapSigner, RawBytes::serialize(SwapSignerParams { from: if wm.signers.is_empty() { accts[0] } else { let a = *rng.pick(&wm.signers); form(&mut rng, a) }, to: { let a = *rng.pick(&accts); form(&mut rng, a) } }).unwrap()),
                     4 => mk(Method::ChangeNumApprovalsThreshold, RawBytes::serialize(ChangeNumApprovalsThresholdParams { new_threshold: rng.below(5) }).unwrap()),
                     5 => mk(Method::LockBalance, RawBytes::serialize(LockBalanceParams { start_epoch: epoch + rng.range(-30, 30), unlock_duration: rng.range(-1, 300), amount: atto(rng.below(2_000_000_000)) }).unwrap()),
                     6 => {
